@@ -14,11 +14,21 @@
           again starts afresh, as its kind is gone).
   Cpusets are finite sets (Nat masks); `Sub`/`Meets` are inclusion / non-empty intersection.
 
+  Strengthened (second half of the file): the array is SORTED by the ranking value the code chose and efficiencies are
+  exactly 0..nr-1 / all -1 (`C15_ranking_sorted`, `C15_efficiency_values`, `C15_efficiency_forced_consistent`); the
+  sorting algorithm is unobservable (`C15_sort_algorithm_irrelevant`); get_by_cpuset is characterised by equivalences
+  (`C15_by_cpuset_exact`); the register loop has a loop-free algebra (`C15_register_algebra`) and the array REFINES the
+  abstract fold  PU ↦ (forced efficiency, infos)  plus a grouping relation (`C15_refinement`, `C15_kinds_are_classes`,
+  `C15_restrict_refines`), from which partition and infos follow again (`C15_*_from_refinement`).
+
   Known defect outside these theorems (see `C15_defect_stale_slot_reachable`): the theorems are about the
   array *contents* the C code intends; `hwloc_internal_cpukinds_restrict` leaves stale struct copies in the
   vacated slots and a later register builds its new kind on top of them.
 -/
 import Hw.Attr.CpuKindsLemmas
+import Hw.Attr.CpuKindsRank
+import Hw.Attr.CpuKindsRefine
+import Hw.Attr.CpuKindsClasses
 namespace Hw.Props.C15
 open Hw Hw.CpuKinds
 
@@ -101,17 +111,7 @@ theorem C15_efficiency_shape (strat : Strategy) (root : Nat) (h : List Op) :
     (∀ (i : Nat) (hi : i < (run strat root h).kinds.length), (run strat root h).kinds[i].eff = (i : Int)) :=
   (run_inv strat root h).eff
 
-/- NOT PROVED (second half of P0 efficiency_shape; only established differentially, mutations M2/M7/M9 of the
-   forced-efficiency rule and of the sort order are caught by the engine):
-
-   theorem C15_efficiency_forced_consistent (root : Nat) (h : List Op) :
-       let ks := (run .dflt root h).kinds
-       (∀ k ∈ ks, k.forced ≠ -1) → (ks.map (·.forced)).Pairwise (· ≠ ·) →
-       (∀ (i : Nat) (hi : i < ks.length), ks[i].eff = (i : Int)) ∧ (ks.map (·.forced)).Pairwise (· < ·)
-
-   Missing lemma: `sortBy key` is sorted w.r.t. `key` (insertion sort) and, with `dupFree`, strictly so; the rest
-   (tryForced succeeds under the hypotheses, renumber keeps `forced`) is in place (`rank_effShape`,
-   `rank_sameCore`, `C15_forced_range`). -/
+/- second half of P0 efficiency_shape: `C15_efficiency_forced_consistent` below (ranking section). -/
 
 /-- forced efficiencies stored by the public API are -1 or non-negative -/
 theorem C15_forced_range (strat : Strategy) (root : Nat) (h : List Op) :
@@ -129,6 +129,241 @@ theorem C15_defect_stale_slot_reachable :
     st.stale = [true] ∧ staleHit st 0x30 (-1) [("C", "3")] true = true := by
   decide
 
+/-! ## Strengthening 1 — the ranking is SORTED by the key the code uses
+
+`hwloc__cpukinds_finalize_ranking` sorts with libc `qsort` (not a hand-written sort) and is only reached after
+`hwloc__cpukinds_check_duplicate_rankings` succeeded, i.e. with pairwise distinct ranking values; hence the sorted
+array is unique and neither the algorithm nor its stability can be observed (`C15_sort_algorithm_irrelevant`).
+`chooseKey strat ks` is the ranking value `hwloc_internal_cpukinds_rank` ends up with for HWLOC_CPUKINDS_RANKING =
+`strat` (`C15_default_key` spells out the default), `none` = "failed to rank". -/
+
+/-- After ANY history: one kind has efficiency 0; two or more kinds are STRICTLY sorted by the chosen ranking value
+    and their efficiencies are their positions 0..nr-1, or — when no ranking value could be chosen — all -1. -/
+theorem C15_ranking_sorted (strat : Strategy) (root : Nat) (h : List Op) :
+    let ks := (run strat root h).kinds
+    (ks.length = 1 → ∀ k ∈ ks, k.eff = 0) ∧
+    (2 ≤ ks.length →
+      match chooseKey strat ks with
+      | some key => ks.Pairwise (fun a b => key a < key b) ∧
+                    ∀ (i : Nat) (hi : i < ks.length), ks[i].eff = (i : Int)
+      | none => ∀ k ∈ ks, k.eff = -1) :=
+  run_ranked strat root h
+
+/-- The ranking value of the default strategy: the forced efficiency when every kind has one and they are pairwise
+    distinct; otherwise `(core type << 20) + frequency` (base frequency if every kind has one, else max frequency;
+    `unsigned` arithmetic, `atoi` on the info values) when every kind has a core type, or every kind a max frequency,
+    or every kind a base frequency, and these values are pairwise distinct; otherwise none. -/
+theorem C15_default_key (ks : List Kind) :
+    chooseKey .dflt ks =
+      if (ks.all (fun k => decide (k.forced ≠ -1)) && dupFree (ks.map forcedKey)) = true then some forcedKey
+      else
+        let haveMax := ks.all (fun k => decide ((summarize k).maxFreq ≠ 0))
+        let haveBase := ks.all (fun k => decide ((summarize k).baseFreq ≠ 0))
+        let haveCT := ks.all (fun k => decide ((summarize k).coreType ≠ 0))
+        if ((haveCT || haveMax || haveBase) && dupFree (ks.map (ctFreqKey haveBase))) = true
+        then some (ctFreqKey haveBase) else none := by
+  simp only [chooseKey, tryForced, tryInfo, List.all_map, Function.comp_def]
+  by_cases hc : ((ks.all fun k => decide (k.forced ≠ -1)) && dupFree (List.map forcedKey ks)) = true
+  · rw [if_pos hc, if_pos hc]
+  · rw [if_neg hc, if_neg hc]
+
+/-- The public efficiencies are EXACTLY `[0, 1, .., nr-1]` in array order, or exactly `[-1, .., -1]`; the latter iff
+    there are at least two kinds and no ranking value could be chosen. -/
+theorem C15_efficiency_values (strat : Strategy) (root : Nat) (h : List Op) :
+    let ks := (run strat root h).kinds
+    ((2 ≤ ks.length ∧ chooseKey strat ks = none) → ks.map (·.eff) = List.replicate ks.length (-1)) ∧
+    (¬ (2 ≤ ks.length ∧ chooseKey strat ks = none) →
+      ks.map (·.eff) = (List.range ks.length).map (fun (i : Nat) => (i : Int))) :=
+  (run_ranked strat root h).effs
+
+/-- every forced efficiency passed to a register call of the history fits a C `int` -/
+def intForced : Op → Bool
+  | .register _ f _ _ => decide (f < 2147483648)
+  | _ => true
+
+/-- P0 efficiency_shape, second half (was unproved): under the default or the `forced_efficiency` strategy, when all
+    forced efficiencies are known and pairwise distinct, efficiency = index and the forced efficiencies strictly
+    increase with the index. -/
+theorem C15_efficiency_forced_consistent (strat : Strategy) (hs : strat = .dflt ∨ strat = .forced)
+    (root : Nat) (h : List Op) (hI : h.all intForced = true) :
+    let ks := (run strat root h).kinds
+    (∀ k ∈ ks, k.forced ≠ -1) → (ks.map (·.forced)).Pairwise (· ≠ ·) →
+    (∀ (i : Nat) (hi : i < ks.length), ks[i].eff = (i : Int)) ∧ (ks.map (·.forced)).Pairwise (· < ·) := by
+  intro ks hk hd
+  refine ranked_forced_consistent hs (run_ranked strat root h) ?_ hk hd
+  apply run_forced_P (fun x => -1 ≤ x ∧ x < 2147483648) strat root h
+  intro cs f i fl hm
+  have := List.all_eq_true.mp hI _ hm
+  simp only [intForced, decide_eq_true_eq] at this
+  split <;> omega
+
+/-- `qsort` is modelled by insertion sort, but ANY permutation of the array that is sorted (even non-strictly) by the
+    chosen ranking value gives the array the model computes: the ranking values are pairwise distinct whenever the
+    sort is reached, so the sorting algorithm and its stability are not observable. -/
+theorem C15_sort_algorithm_irrelevant (strat : Strategy) (ks ks' : List Kind) (key : Kind → Nat)
+    (hk : chooseKey strat ks = some key) (h2 : 2 ≤ ks.length)
+    (hp : ks'.Perm ks) (hs : ks'.Pairwise (fun a b => key a ≤ key b)) :
+    rank strat ks = renumber 0 ks' ∧ dupFree (ks.map key) = true :=
+  ⟨rank_eq_of_sorted strat hk h2 hp hs, (chooseKey_some hk).2⟩
+
+/-- When no ranking value can be chosen the array keeps its order (registration order: old kinds in place, split-off
+    kinds appended in the order of the kinds they were split from, the uncovered rest last — `C15_register_algebra`);
+    only the efficiencies are cleared. -/
+theorem C15_unranked_keeps_order (strat : Strategy) (ks : List Kind) (h : chooseKey strat ks = none) :
+    (rank strat ks).map (fun k => (k.cpuset, k.forced, k.infos)) = ks.map (fun k => (k.cpuset, k.forced, k.infos)) :=
+  rank_unranked_order strat ks h
+
+/-- get_by_cpuset EXACTLY as documented, on every reachable state, for a non-empty set and zero flags: it returns
+    index `j` iff the set lies inside kind `j` (and there is at most one such kind); -1/EXDEV iff the set meets some
+    kind but lies inside none; -1/ENOENT iff it meets no kind. -/
+theorem C15_by_cpuset_exact (strat : Strategy) (root : Nat) (h : List Op) (s : Nat) (hs : s ≠ 0) :
+    let ks := (run strat root h).kinds
+    let r := getByCpuset (run strat root h) (some s) 0
+    (∀ j, r = .idx j ↔ ∃ hj : j < ks.length, Sub s ks[j].cpuset) ∧
+    (r = .err .exdev ↔ (∃ k ∈ ks, Meets s k.cpuset) ∧ ∀ k ∈ ks, ¬ Sub s k.cpuset) ∧
+    (r = .err .enoent ↔ ∀ k ∈ ks, ¬ Meets s k.cpuset) ∧
+    (∀ (i j : Nat) (hi : i < ks.length) (hj : j < ks.length),
+      Sub s ks[i].cpuset → Sub s ks[j].cpuset → i = j) := by
+  intro ks r
+  have H := run_inv strat root h
+  have hr : r = byCpusetLoop ks s 0 := by simp [r, ks, getByCpuset, hs]
+  have ⟨h1, h2, h3⟩ := byCpusetLoop_exact s hs ks H.k.ne H.k.dj
+  rw [hr]
+  exact ⟨h1, h2, h3, fun i j hi hj => sub_unique H.k.dj hs i j hi hj⟩
+
+/-! ## Strengthening 2 — the algebra of registration and the refinement to  PU ↦ (forced efficiency, infos)
+
+Abstract spec (`CpuKindsRefine.lean`): `AMap := PU → Option (forced efficiency × info list)`;
+`AMap.reg m cs f infos` gives every PU of `cs` the cell `(f, addInfos (old infos or []) infos)` and leaves the others
+alone; `AMap.restrict m r` drops the PUs outside `r`; `absRun root h` folds the successful calls of a history.
+`Refines ks m`: every PU of every kind carries exactly that kind's (forced, infos), uncovered PUs have no cell. -/
+
+/-- The register loop WITHOUT its loop: on a partition, `hwloc_internal_cpukinds_register` (any flags / forced
+    efficiency / infos) classifies every old kind against the ORIGINAL cpuset — disjoint: untouched; wholly covered:
+    infos merged, forced efficiency by the keep/overwrite rule; partly covered: shrunk, and its covered part appended
+    as a new kind with the union of the infos and the NEW forced efficiency — then appends the uncovered rest. -/
+theorem C15_register_algebra (st : State) (cs : Nat) (f : Int) (infos : List Info) (fl : Nat)
+    (hcs : cs ≠ 0) (hfl : fl / 2 = 0) (hne : NonEmpty st.kinds) (hdj : Disjoint st.kinds) :
+    (internalRegister st cs f infos fl).1.kinds =
+      st.kinds.map (flatOld f infos (decide (fl % 2 = 1)) cs) ++
+      (st.kinds.filterMap (flatNew f infos cs) ++
+        (if flatRem cs st.kinds = 0 then [] else
+          [{ cpuset := flatRem cs st.kinds, eff := -1, forced := f, infos := addInfos [] infos }])) :=
+  internalRegister_kinds_flat st cs f infos fl hcs hfl hne hdj
+
+/-- ONE internal registration with ANY flags refines the abstract update `AMap.regG`: infos as in `AMap.reg`; the
+    forced efficiency of a covered PU becomes the new one unless (no OVERWRITE flag, a value is already known AND the
+    PU's whole kind is covered). -/
+theorem C15_internal_register_refines (st : State) (m : AMap) (hne : NonEmpty st.kinds) (hdj : Disjoint st.kinds)
+    (hnd : InfosNodup st.kinds) (R : Refines st.kinds m)
+    (cs : Nat) (f : Int) (infos : List Info) (fl : Nat) (hcs : cs ≠ 0) (hfl : fl / 2 = 0) :
+    Refines (internalRegister st cs f infos fl).1.kinds
+      (AMap.regG st.kinds (decide (fl % 2 = 1)) m cs f infos) :=
+  internalRegister_refines hne hdj hnd R cs f infos fl hcs hfl
+
+/-- with the OVERWRITE flag (the public call, XML import) the update is the plain per-PU `AMap.reg` -/
+theorem C15_regG_overwrite (ks : List Kind) (m : AMap) (cs : Nat) (f : Int) (infos : List Info) :
+    AMap.regG ks true m cs f infos = m.reg cs f infos := AMap.regG_true ks m cs f infos
+
+/-- REFINEMENT over ALL histories (register with any cpuset / forced efficiency / infos / flags, restrict, dup, XML
+    round trip, refresh; every strategy): the kinds array refines the abstract fold — read back PU by PU it IS the
+    abstract map — and the root cpusets agree. -/
+theorem C15_refinement (strat : Strategy) (root : Nat) (h : List Op) :
+    Refines (run strat root h).kinds (absRun root h).map ∧
+    (∀ p, cellAt (run strat root h).kinds p = (absRun root h).map p) ∧
+    (absRun root h).root = (run strat root h).root :=
+  ⟨(run_refines strat root h).1, cellAt_eq (run_refines strat root h).1, (run_refines strat root h).2⟩
+
+/-- WHICH PUs share a kind, after ANY history: exactly those related by the abstract grouping `clRun` (register cs:
+    two PUs of `cs` are together iff they were together or both uncovered, two PUs outside `cs` iff they were, one
+    inside and one outside never; restrict: together iff they were and both survive).  Hence the cpuset of the kind
+    containing `p` is `{q | same p q}`: with `C15_refinement` the kinds array is determined by the abstract state up
+    to order, and with `C15_ranking_sorted` (when ranked) completely, efficiencies included. -/
+theorem C15_kinds_are_classes (strat : Strategy) (root : Nat) (h : List Op) :
+    (∀ p q, (∃ k ∈ (run strat root h).kinds, k.cpuset.testBit p = true ∧ k.cpuset.testBit q = true) ↔
+      (clRun root h).same p q) ∧
+    (∀ k ∈ (run strat root h).kinds, ∀ p, k.cpuset.testBit p = true →
+      ∀ q, k.cpuset.testBit q = true ↔ (clRun root h).same p q) := by
+  refine ⟨run_together strat root h, ?_⟩
+  intro k hk p hp q
+  rw [kind_bits_of_together (run_inv strat root h).k.dj hk hp q]
+  exact run_together strat root h p q
+
+/-- ONE internal registration with ANY flags regroups the PUs by `regSame` -/
+theorem C15_internal_register_classes (st : State) (S : Same) (hne : NonEmpty st.kinds) (hdj : Disjoint st.kinds)
+    (T : ∀ p q, Together st.kinds p q ↔ S p q)
+    (cs : Nat) (f : Int) (infos : List Info) (fl : Nat) (hcs : cs ≠ 0) (hfl : fl / 2 = 0) :
+    ∀ p q, Together (internalRegister st cs f infos fl).1.kinds p q ↔ regSame S cs p q :=
+  internalRegister_together hne hdj T cs f infos fl hcs hfl
+
+/-- Strengthening 3 — restrict: whatever map the array refines, after `hwloc_topology_restrict` it refines the
+    RESTRICTION of that map to the new root cpuset (unchanged when restrict fails with EINVAL). -/
+theorem C15_restrict_refines (strat : Strategy) (st : State) (m : AMap) (R : Refines st.kinds m) (set : Nat) :
+    Refines (restrict strat st set).1.kinds
+      (if st.root &&& set = 0 then m else m.restrict (st.root &&& set)) := by
+  unfold restrict
+  split
+  · exact R
+  · exact restrictKinds_refines strat R _
+
+/-- Corollary (partition): the PUs covered by the kinds are exactly the domain of the abstract map, which is the
+    reference coverage of `C15_kinds_partition` (union of registered cpusets, cut by every restrict). -/
+theorem C15_partition_from_refinement (strat : Strategy) (root : Nat) (h : List Op) (p : Nat) :
+    ((∃ k ∈ (run strat root h).kinds, k.cpuset.testBit p = true) ↔ (absRun root h).map p ≠ none) ∧
+    ((absRun root h).map p ≠ none ↔ (runGhost root h).cov.testBit p = true) := by
+  have R := (run_refines strat root h).1
+  refine ⟨⟨?_, ?_⟩, (absGhost_run root h).dom p⟩
+  · rintro ⟨k, hk, hp⟩
+    rw [R.cell k hk p hp]; simp
+  · intro hn
+    apply Classical.byContradiction
+    intro hc
+    exact hn (R.none p hc)
+
+/-- Corollary (infos): `C15_kinds_infos` re-derived from the refinement — the info list of a kind is the info list of
+    the abstract cell of each of its PUs, which is duplicate-free and contains exactly the owed pairs. -/
+theorem C15_infos_from_refinement (strat : Strategy) (root : Nat) (h : List Op) :
+    ∀ k ∈ (run strat root h).kinds, k.infos.Nodup ∧
+      ∀ p, k.cpuset.testBit p = true → ∀ x, x ∈ k.infos ↔ (runGhost root h).ow p x := by
+  intro k hk
+  have R := (run_refines strat root h).1
+  have G := absGhost_run root h
+  obtain ⟨p0, hp0⟩ := (ne_zero_iff_bits _).mp ((run_inv strat root h).k.ne k hk)
+  exact ⟨G.nd p0 k.fi (R.cell k hk p0 hp0), fun p hp x => G.inf p k.fi (R.cell k hk p hp) x⟩
+
+/-- every forced efficiency stored in a kind is the (normalised: negative -> -1) forced efficiency of a register call
+    of the history: any predicate true of all of those holds for every kind -/
+theorem C15_forced_from_history (P : Int → Prop) (strat : Strategy) (root : Nat) (h : List Op)
+    (hP : ∀ cs f i fl, Op.register cs f i fl ∈ h → P (if f < 0 then -1 else f)) :
+    ∀ k ∈ (run strat root h).kinds, P k.forced :=
+  run_forced_P P strat root h hP
+
+/-- Ranking and refinement together, PU by PU: when a ranking value `key` was chosen, the efficiencies of the kinds
+    of two PUs compare as the ranking values of their ABSTRACT cells. -/
+theorem C15_efficiency_order_by_cells (strat : Strategy) (root : Nat) (h : List Op) (key : Kind → Nat)
+    (h2 : 2 ≤ (run strat root h).kinds.length) (hk : chooseKey strat (run strat root h).kinds = some key)
+    (i j : Nat) (hi : i < (run strat root h).kinds.length) (hj : j < (run strat root h).kinds.length)
+    (p q : Nat) (cp cq : Cell)
+    (hp : (run strat root h).kinds[i].cpuset.testBit p = true)
+    (hq : (run strat root h).kinds[j].cpuset.testBit q = true)
+    (hcp : (absRun root h).map p = some cp) (hcq : (absRun root h).map q = some cq) :
+    (run strat root h).kinds[i].eff = (i : Int) ∧ (run strat root h).kinds[j].eff = (j : Int) ∧
+    (i < j ↔ key (ofFI cp) < key (ofFI cq)) :=
+  eff_order_by_cells (run_ranked strat root h) (run_refines strat root h).1 h2 hk i j hi hj p q cp cq hp hq hcp hcq
+
+/-- Finding (internal entry point, flags = 0 as used by the windows / x86 / linux / darwin backends): the rule "keep
+    the first known forced efficiency" is applied only when the registered cpuset covers a whole kind.  When it covers
+    a kind partly, the split-off kind takes the new value even if that is UNKNOWN: here PUs {0,1} have forced
+    efficiency 5, a second backend registers PU {0} with UNKNOWN and no OVERWRITE flag, and PU 0 ends with -1;
+    registering {0,1} instead keeps 5.  (Confirmed on the C code with a direct call.) -/
+theorem C15_finding_split_drops_forced :
+    let st0 : State := (internalRegister {} 0x3 5 [] 0).1
+    ((internalRegister st0 0x1 (-1) [("CoreType", "IntelAtom")] 0).1.kinds.map (fun k => (k.cpuset, k.forced))
+        = [(0x2, 5), (0x1, -1)]) ∧
+    ((internalRegister st0 0x3 (-1) [("CoreType", "IntelAtom")] 0).1.kinds.map (fun k => (k.cpuset, k.forced))
+        = [(0x3, 5)]) := by
+  decide
+
 /-! non-vacuity: a concrete history with a split, a merge, a restrict that removes a kind, and a ranking -/
 example :
     (run .dflt 0xfff [.register (some 0x0f) 2 [("CoreType", "IntelCore")] 0,
@@ -142,5 +377,36 @@ example :
 example :
     getByCpuset (run .dflt 0xfff [.register (some 0x0f) 2 [] 0, .register (some 0x3c) 1 [] 0]) (some 0x30) 0
       = .idx 2 := by decide
+
+/-! non-vacuity of the strengthened theorems -/
+-- ranked by forced efficiency: hypotheses of `C15_efficiency_forced_consistent` hold on a 3-kind state
+example :
+    let h : List Op := [.register (some 0x0f) 2 [] 0, .register (some 0x3c) 1 [] 0, .register (some 0x30) 0 [] 0]
+    let ks := (run .dflt 0xfff h).kinds
+    h.all intForced = true ∧ (∀ k ∈ ks, k.forced ≠ -1) ∧ (ks.map (·.forced)).Pairwise (· ≠ ·) ∧
+    ks.map (fun k => (k.cpuset, k.eff, k.forced)) = [(0x30, 0, 0), (0x0c, 1, 1), (0x03, 2, 2)] := by decide
+-- ranked by core type + frequency (no forced efficiency): a key is chosen and the array is sorted by it
+example :
+    let ks := (run .dflt 0xff [.register (some 0x0f) (-1) [("CoreType", "IntelCore"), ("FrequencyBaseMHz", "3000")] 0,
+                               .register (some 0xf0) (-1) [("CoreType", "IntelAtom"), ("FrequencyBaseMHz", "2000")] 0]).kinds
+    (chooseKey .dflt ks).isSome = true ∧ ks.map (fun k => (k.cpuset, k.eff, ctFreqKey true k)) =
+      [(0xf0, 0, 1050576), (0x0f, 1, 2100152)] := by decide
+-- unranked: two kinds without any usable information
+example :
+    let ks := (run .dflt 0xff [.register (some 0x0f) (-1) [] 0, .register (some 0xf0) (-1) [] 0]).kinds
+    (chooseKey .dflt ks).isNone = true ∧ ks.map (·.eff) = [-1, -1] := by decide
+-- the abstract map of a history with a split, a merge and a restrict
+example :
+    let h : List Op := [.register (some 0x0f) 2 [("A", "1")] 0, .register (some 0x3c) 1 [("B", "2"), ("A", "1")] 0,
+                        .restrict 0x3e]
+    ((List.range 7).map (absRun 0xff h).map) =
+      [none, some (2, [("A", "1")]), some (1, [("A", "1"), ("B", "2")]), some (1, [("A", "1"), ("B", "2")]),
+       some (1, [("B", "2"), ("A", "1")]), some (1, [("B", "2"), ("A", "1")]), none] ∧
+    ((List.range 7).map (cellAt (run .dflt 0xff h).kinds)) = ((List.range 7).map (absRun 0xff h).map) := by decide
+-- the hypotheses of `C15_register_algebra` / `C15_internal_register_refines` hold on a non-trivial state
+example :
+    let st := run .dflt 0xff [.register (some 0x0f) 2 [("A", "1")] 0, .register (some 0x3c) 1 [("B", "2")] 0]
+    st.kinds.length = 3 ∧ (∀ k ∈ st.kinds, k.cpuset ≠ 0) ∧
+    st.kinds.Pairwise (fun a b => a.cpuset &&& b.cpuset = 0) ∧ (∀ k ∈ st.kinds, k.infos.Nodup) := by decide
 
 end Hw.Props.C15
